@@ -133,3 +133,21 @@ def wl_digest(triples):
         col = new
     body = "\n".join(" ".join(t) for t in g.ground) + "\n#\n" + "\n".join(sorted(col.values()))
     return hashlib.sha1(body.encode()).hexdigest()[:16]
+
+
+def self_test(corpus_dir):
+    """the corpus pair rdflib gets wrong must be isomorphic; with one triple's object moved it must not be (runner calls this once per run)"""
+    import os
+    import rdflib
+    a = rdflib.Graph().parse(os.path.join(corpus_dir, "rdflib_false_negative_a.nt"), format="nt")
+    b = rdflib.Graph().parse(os.path.join(corpus_dir, "rdflib_false_negative_b.nt"), format="nt")
+    ta, tb = triples_of(a), triples_of(b)
+    if not isomorphic_triples(ta, tb) or wl_digest(ta) != wl_digest(tb):
+        return "iso.py: the corpus pair is not recognised as isomorphic"
+    bl = [t for t in tb if _is_b(t[0]) and _is_b(t[2])]
+    s, p, o = bl[0]
+    other = next(x for t in tb for x in (t[0], t[2]) if _is_b(x) and x not in (s, o) and (s, p, x) not in set(tb))
+    tc = [t for t in tb if t != (s, p, o)] + [(s, p, other)]
+    if isomorphic_triples(ta, tc):
+        return "iso.py: a changed graph is accepted as isomorphic"
+    return None
